@@ -60,38 +60,38 @@ func setOf(m map[string]bool) string {
 	return strings.Join(ks, ",")
 }
 
-func execC03(c WorldCase) *Failure {
-	st := getStats("C03")
-	w := world.FromList(c.Objs)
-	s, steps, err := freshSim(c.Params, c.Objs)
-	if err != nil {
-		panic(err)
-	}
-	defer s.Close()
-	if e := stepErrors(steps); e != nil {
-		return failf("C03:update-error", "update failed: %v", e)
-	}
+// routingStats is what the routing oracle observed (for the evidence).
+type routingStats struct {
+	Requests, Nontrivial, Fallthrough, Incon int
+	Multi, DefaultRules, TLSHosts, Drain     bool
+}
+
+// routingOracle compares, for every request of the alphabet, the backend and the
+// servers the written configuration selects with the documented rules computed
+// from the objects. sigPrefix names the property in failure signatures.
+func routingOracle(s *ctlsim.Sim, objs []*world.Obj, params ctlsim.Params, sigPrefix string) (*Failure, routingStats) {
+	var rs routingStats
+	w := world.FromList(objs)
 	cfg, perr := hapcfg.LoadDir(s.CfgDir())
 	if len(perr) > 0 {
-		return failf("C03:unparsable", "%v", perr)
+		return failf(sigPrefix+":unparsable", "%v", perr), rs
 	}
-	ref := refBuild(w, c.Params)
-	drain := false
+	ref := refBuild(w, params)
 	if cm := w.Get(world.KConfigMap, world.GlobalCM); cm != nil {
-		drain = cm.Data["drain-support"] == "true"
+		rs.Drain = cm.Data["drain-support"] == "true"
 	}
-	reqs, _ := requestsFor(c.Objs)
-	nontrivialReqs, incon, fallthroughs := 0, 0, 0
+	reqs, _ := requestsFor(objs)
+	rs.Requests = len(reqs)
 	checkedBackends := map[string]bool{}
 	for _, rq := range reqs {
 		res := cfg.Route(rq)
 		if res.Inconclusive() && res.Backend == "" {
-			incon++
+			rs.Incon++
 			continue
 		}
 		allowed := ref.route(rq.HTTPS, rq.Host, rq.Path)
 		if res.Final != nil && res.Backend == "" {
-			return failf("C03:frontend-action", "request %s ended in the frontend by %q; expected routing to %s", rq, res.Final.Raw, allowed[0].ID)
+			return failf(sigPrefix+":frontend-action", "request %s ended in the frontend by %q; expected routing to %s", rq, res.Final.Raw, allowed[0].ID), rs
 		}
 		var match *refBackend
 		for _, a := range allowed {
@@ -101,21 +101,21 @@ func execC03(c WorldCase) *Failure {
 		}
 		host := strings.ToLower(strings.SplitN(rq.Host, ":", 2)[0])
 		if len(ref.Hosts[host]) >= 2 || allowed[0].ID == "_error404" || (ref.Default != nil && allowed[0] == ref.Default) {
-			nontrivialReqs++
+			rs.Nontrivial++
 		}
 		if _, declared := ref.Hosts[host]; !declared || len(ref.winners(host, rq.Path)) == 0 {
-			fallthroughs++
+			rs.Fallthrough++
 		}
 		if match == nil {
 			var ids []string
 			for _, a := range allowed {
 				ids = append(ids, a.ID)
 			}
-			sig := "C03:wrong-backend"
+			sig := sigPrefix + ":wrong-backend"
 			if rq.HTTPS && !ref.TLS[host] {
-				sig = "C03:https-host-without-tls"
+				sig = sigPrefix + ":https-host-without-tls"
 			}
-			return failf(sig, "request %s is sent to backend %q, the documented rules give %v\ntrace:\n  %s", rq, res.Backend, ids, strings.Join(res.Trace, "\n  "))
+			return failf(sig, "request %s is sent to backend %q, the documented rules give %v\ntrace:\n  %s", rq, res.Backend, ids, strings.Join(res.Trace, "\n  ")), rs
 		}
 		if match.ID == "_error404" || checkedBackends[match.ID] {
 			continue
@@ -134,43 +134,61 @@ func execC03(c WorldCase) *Failure {
 			}
 		}
 		if setOf(ready) != setOf(match.Ready) {
-			return failf("C03:wrong-servers", "backend %s (request %s): servers with weight>0 are {%s}, the ready endpoints of the service port are {%s}", be.Name, rq, setOf(ready), setOf(match.Ready))
+			return failf(sigPrefix+":wrong-servers", "backend %s (request %s): servers with weight>0 are {%s}, the ready endpoints of the service port are {%s}", be.Name, rq, setOf(ready), setOf(match.Ready)), rs
 		}
-		if !drain && len(drained) > 0 {
-			return failf("C03:drain-without-support", "backend %s has weight-0 servers {%s} although drain-support is off", be.Name, setOf(drained))
+		if !rs.Drain && len(drained) > 0 {
+			return failf(sigPrefix+":drain-without-support", "backend %s has weight-0 servers {%s} although drain-support is off", be.Name, setOf(drained)), rs
 		}
-		if drain && setOf(drained) != setOf(match.Drained) {
-			return failf("C03:wrong-drained-servers", "backend %s: weight-0 servers are {%s}, the not-ready endpoints are {%s}", be.Name, setOf(drained), setOf(match.Drained))
+		if rs.Drain && setOf(drained) != setOf(match.Drained) {
+			return failf(sigPrefix+":wrong-drained-servers", "backend %s: weight-0 servers are {%s}, the not-ready endpoints are {%s}", be.Name, setOf(drained), setOf(match.Drained)), rs
 		}
 	}
-	labels := []string{fmt.Sprintf("drain=%v", drain)}
-	if c.Params.DefaultBackend != "" {
-		labels = append(labels, "default-backend-service")
-	}
-	if len(ref.Hosts[""]) > 0 {
-		labels = append(labels, "default-host-rules")
-	}
-	multi := false
-	for h, rs := range ref.Hosts {
+	rs.DefaultRules = len(ref.Hosts[""]) > 0
+	for h, rules := range ref.Hosts {
 		owners := map[string]bool{}
-		for _, r := range rs {
+		for _, r := range rules {
 			owners[r.Ing] = true
 		}
 		if h != "" && len(owners) >= 2 {
-			multi = true
+			rs.Multi = true
 		}
 	}
-	if multi {
+	rs.TLSHosts = len(ref.TLS) > 0
+	return nil, rs
+}
+
+func execC03(c WorldCase) *Failure {
+	st := getStats("C03")
+	s, steps, err := freshSim(c.Params, c.Objs)
+	if err != nil {
+		panic(err)
+	}
+	defer s.Close()
+	if e := stepErrors(steps); e != nil {
+		return failf("C03:update-error", "update failed: %v", e)
+	}
+	f, rs := routingOracle(s, c.Objs, c.Params, "C03")
+	if f != nil {
+		return f
+	}
+	labels := []string{fmt.Sprintf("drain=%v", rs.Drain)}
+	if c.Params.DefaultBackend != "" {
+		labels = append(labels, "default-backend-service")
+	}
+	if rs.DefaultRules {
+		labels = append(labels, "default-host-rules")
+	}
+	if rs.Multi {
 		labels = append(labels, "host-shared-by-ingresses")
 	}
-	if len(ref.TLS) > 0 {
+	if rs.TLSHosts {
 		labels = append(labels, "tls-hosts")
 	}
-	st.Case(c, multi || len(ref.Hosts[""]) > 0, labels...)
-	st.Count("requests", len(reqs))
-	st.Count("requests_nontrivial", nontrivialReqs)
-	st.Count("requests_fallthrough", fallthroughs)
-	st.Count("requests_inconclusive", incon)
+	st.Case(c, rs.Multi || rs.DefaultRules, labels...)
+	st.Count("requests", rs.Requests)
+	st.Count("requests_nontrivial", rs.Nontrivial)
+	st.Count("requests_fallthrough", rs.Fallthrough)
+	st.Count("requests_inconclusive", rs.Incon)
 	return nil
 }
 
